@@ -298,6 +298,20 @@ def run_helper(case):
     except Exception as e:
         return util.result(viol=[util.viol("helper:exception", f"{case}: {e!r}", case)], nontrivial=1)
     viols = []
+    # a sample function that hands back its own arguments (u = y, v = x): the helper must not write into them
+    st2 = State()
+    st2.append(X=np.array([x for x, _ in STARTS]), Y=np.array([y for _, y in STARTS]), Z=0.0)
+    x_before, y_before = st2.X.copy(), st2.Y.copy()
+    getv = dict(EF=analytical.get_velocity1, RK2=analytical.get_velocity2, RK4=analytical.get_velocity4)[scheme]
+    try:
+        U2, V2 = getv(st2, lambda x, y: (y, x), 1e-4)
+        U2, V2 = np.array(U2), np.array(V2)
+    except Exception as e:
+        return util.result(viol=[util.viol("helper:exception", f"{case}: {e!r}", case)], nontrivial=1)
+    if not (np.array_equal(st2.X, x_before) and np.array_equal(st2.Y, y_before)):
+        viols.append(util.viol(f"helper:side-effect:{scheme}", f"get_velocity for {scheme} modified the particle positions of the state (sample function returning its arguments)", case))
+    elif np.abs(U2 - y_before).max() > 1e-2 or np.abs(V2 - x_before).max() > 1e-2:
+        viols.append(util.viol(f"helper:{scheme}", f"get_velocity for {scheme} with u=y, v=x returned U={U2[:2]} V={V2[:2]} for positions X={x_before[:2]} Y={y_before[:2]}", case))
     for i, (x, y) in enumerate(STARTS):
         ex, ey = ref_tableau_step(scheme, s, field, p, x, y, 0.0, dt, 1.0, 1.0)
         gu, gv = (ex - x) / dt, (ey - y) / dt
